@@ -33,6 +33,9 @@ type c25Op struct {
 	// Mode (setsize): the same SETATTR also sets mode 0600 and mtime; a request refused for its size leaves all of the
 	// file as it was
 	Mode bool `json:"mode,omitempty"`
+	// Under (write): the count field announces this many bytes fewer than the data opaque carries; whatever the server
+	// makes of such a request, the file must not end up beyond the limit
+	Under int `json:"under,omitempty"`
 }
 
 type c25Case struct {
@@ -51,7 +54,7 @@ func genC25(t *rapid.T) c25Case {
 	}
 	n := rapid.IntRange(2, 14).Draw(t, "n")
 	for i := 0; i < n; i++ {
-		c.Ops = append(c.Ops, c25Op{Kind: pick(t, "kind", "write", "write", "write", "setsize", "setsize", "create"), End: rapid.IntRange(0, 10).Draw(t, "end"), Len: pick(t, "len", 0, 1, 2, 3, 100, 5000), Guard: rapid.IntRange(0, 2).Draw(t, "guard") == 0, Mode: rapid.IntRange(0, 2).Draw(t, "mode") == 0})
+		c.Ops = append(c.Ops, c25Op{Kind: pick(t, "kind", "write", "write", "write", "setsize", "setsize", "create"), End: rapid.IntRange(0, 10).Draw(t, "end"), Len: pick(t, "len", 0, 1, 2, 3, 100, 5000), Guard: rapid.IntRange(0, 2).Draw(t, "guard") == 0, Mode: rapid.IntRange(0, 2).Draw(t, "mode") == 0, Under: pick(t, "under", 0, 0, 0, 0, 1, 3, 100)})
 	}
 	return c
 }
@@ -133,6 +136,7 @@ func runC25(tb stat.TB, c c25Case) {
 			pre, _ := lv.PeekLstat("/f")
 			var lres, tres *nfsx.Res
 			what := ""
+			lastOp := false
 			switch op.Kind {
 			case "write":
 				ln := op.Len
@@ -145,7 +149,33 @@ func runC25(tb stat.TB, c c25Case) {
 					data[j] = byte(i*31+j) | 1
 				}
 				what = fmt.Sprintf("op#%d WRITE offset=%d len=%d (end %d, limit %d)", i, off, ln, end, c.M)
-				lres = lim.nfs(nfsx.ProcWrite, nfsx.ArgsWrite(lfh, off, uint32(ln), nfsx.FileSync, data))
+				cnt := ln
+				if op.Under > 0 && op.Under <= ln {
+					cnt = ln - op.Under
+					what += fmt.Sprintf(" announcing count=%d", cnt)
+				}
+				if cnt != ln {
+					// count and data disagree: whatever the reply (also one the strict decoder rejects), only the size
+					// invariant below is judged
+					stat.Label("write_count_below_data_length", 1)
+					r, rerr := lim.e.NFS3(lim.cl, nfsx.ProcWrite, nfsx.ArgsWrite(lfh, off, uint32(cnt), nfsx.FileSync, data))
+					if rerr != nil {
+						r = &nfsx.Res{Proc: nfsx.ProcWrite, Status: 0xFFFFFFFF}
+					}
+					lres = r
+					if int64(end) <= c.M {
+						// within the limit under either reading of the request: the twin receives it too
+						lim2, terr := twin.e.NFS3(twin.cl, nfsx.ProcWrite, nfsx.ArgsWrite(tfh, off, uint32(cnt), nfsx.FileSync, data))
+						if terr != nil {
+							lim2 = &nfsx.Res{Proc: nfsx.ProcWrite, Status: 0xFFFFFFFF}
+						}
+						tres = lim2
+					} else {
+						lastOp = true // the twin cannot follow a request whose two readings fall on both sides of the limit
+					}
+					break
+				}
+				lres = lim.nfs(nfsx.ProcWrite, nfsx.ArgsWrite(lfh, off, uint32(cnt), nfsx.FileSync, data))
 				exceeds := int64(end) > c.M && ln > 0
 				if !exceeds {
 					tres = twin.nfs(nfsx.ProcWrite, nfsx.ArgsWrite(tfh, off, uint32(ln), nfsx.FileSync, data))
@@ -205,6 +235,12 @@ func runC25(tb stat.TB, c c25Case) {
 				if stat.Violate(tb, id, check, "file-exceeds-max-file-size", c, "%s (%s): the request took the file from %d to %d bytes, MaxFileSize is %d", what, statusName(lres.Status), pre.Size, post.Size, c.M) {
 					return
 				}
+			}
+			if lastOp {
+				if lres.Status != nfsx.OK && post.Size != pre.Size {
+					stat.Violate(tb, id, check, "refused-request-changes-file", c, "%s was refused but the size went from %d to %d", what, pre.Size, post.Size)
+				}
+				break
 			}
 			if tres == nil {
 				// refused request: nothing may have changed
